@@ -323,7 +323,14 @@ namespace sqf::runtime
                     { // it is not
                         // Lookup inherited node and replace it
                         auto nav = lookup_in_logical(inherited);
-                        replaced.id_parent_inherited = nav.m_index;
+                        // The inheritance relation has to stay acyclic: a class cannot (directly or
+                        // through its bases) inherit from itself, lookups would never terminate.
+                        bool cyclic = false;
+                        for (size_t index = nav.m_index, steps = 0; index != config::invalid_id; index = m_confighost.m_containers.at(index).id_parent_inherited)
+                        {
+                            if (index == replaced.id || ++steps > m_confighost.m_containers.size()) { cyclic = true; break; }
+                        }
+                        replaced.id_parent_inherited = cyclic ? config::invalid_id : nav.m_index;
                     }
 
                     // Return found container as confignav
